@@ -912,6 +912,10 @@ func famPattern(o *Out, r R, tier string) {
 	emit("defect", "too-long", "https://"+strings.Repeat("a", 64)+".com")
 	emit("defect", "too-long", maxScheme+"c://example.com")
 	emit("defect", "too-long", "https://*."+longHost(252, 'a'))
+	for _, n := range []int{249, 250, 251, 252} { // the wildcard's length limit counts the trailing full stop (the model decides)
+		emit("grey", "wildcard-absolute", "https://*."+longHost(n, 'a')+".")
+		emit("grey", "wildcard-absolute", "https://*."+longHost(n, 'a'))
+	}
 	for _, h := range []string{strings.Repeat("a", 64), "example." + strings.Repeat("a", 64), "www.example." + strings.Repeat("b", 64), "example." + strings.Repeat("a", 200), strings.Repeat("a", 64) + "."} {
 		emit("defect", "long-last-label", "https://"+h)
 		emit("defect", "long-last-label", "http://"+h+":8080")
